@@ -40,7 +40,7 @@ def strings_of(e, out, depth=0):
 def run(chk):
     f = F.load()
     g, ip = P.shared(f)
-    chk.rules = ["R-LOSSLESS-PATH", "R-CHUNK-VOCAB", "R-NO-TRUNC", "R-DEFAULT-SKIP", "R-GUARDED-SETTER"]
+    chk.rules = ["R-LOSSLESS-PATH", "R-CHUNK-VOCAB", "R-STRING-LEN", "R-NO-TRUNC", "R-DEFAULT-SKIP", "R-GUARDED-SETTER"]
     chk.assumptions = ["png / base64 crates transport zTXt chunk text unchanged", "exact reproduction of cell values is not decided (value-level)"]
     reviewed = {}
     try:
@@ -261,6 +261,24 @@ def run(chk):
         chk.obligation(ok)
         if not ok:
             chk.finding("IcyDraw|constant-one-sided|%s" % nm, rule="R-CHUNK-VOCAB", where="src/formats/icy_draw.rs", fn="IcyDraw", what="constant %s is not used by both writer and reader" % nm)
+    # ------------------------------------------------------------------ R-STRING-LEN (writer/reader of length-prefixed strings agree on *byte* length)
+    ws = f.bodies.get("formats::icy_draw::write_utf8_encoded_string")
+    rs = f.bodies.get("formats::icy_draw::read_utf8_encoded_string")
+    if chk.anchor(ws is not None and rs is not None, "R-STRING-LEN", "anchor missing: write/read_utf8_encoded_string"):
+        e2 = ExprBuilder(ws)
+        exts = [show(e2.call_expr(t)) for bi, t in ws.calls() if (t["callee"].get("resolved") or "").endswith("::extend")]
+        ok = len(exts) == 2 and "to_le_bytes((len(&*s) as u32))" in exts[0] and exts[1].endswith("as_bytes(&*s))")
+        chk.obligation(ok)
+        if not ok:
+            chk.finding("write_utf8_encoded_string|shape", rule="R-STRING-LEN", where="%s:%s" % (ws.file, ws.line), fn="write_utf8_encoded_string",
+                        what="the length prefix is not the byte length of the bytes that follow: %s" % exts)
+        e3 = ExprBuilder(rs)
+        txt = " ".join(show(e3.call_expr(t)) for bi, t in rs.calls())
+        ok = "Range{0, 4}" in txt and "Range{4, (4 + " in txt
+        chk.obligation(ok)
+        if not ok:
+            chk.finding("read_utf8_encoded_string|shape", rule="R-STRING-LEN", where="%s:%s" % (rs.file, rs.line), fn="read_utf8_encoded_string",
+                        what="the reader does not take the 4-byte length prefix as the byte count of data[4..4+n]")
     # ------------------------------------------------------------------ R-NO-TRUNC
     an = Analyzer(f, interproc=ip)
     an.cast_log = []
